@@ -72,7 +72,8 @@ def verdicts(results, index, cases):
 class Placer:
     """builds one model holding many cases; remembers which (path, line) belongs to which case"""
 
-    def __init__(self, base_decl, tname="T", tdecl="", tparams=None, extra_templates=None, extra_system=""):
+    def __init__(self, base_decl, tname="T", tdecl="", tparams=None, extra_templates=None, extra_system="", job_extra=None):
+        self.job_extra = job_extra or {}
         self.gl = base_decl.rstrip("\n").split("\n")      # global declaration lines
         self.tl = tdecl.rstrip("\n").split("\n") if tdecl else []
         self.sl = []                                         # system lines
@@ -135,6 +136,7 @@ class Placer:
         j = {"id": jid, "entry": "xml_buffer", "text": xmlgen.render_xml(m), "structure": False}
         if self.queries:
             j["queries"] = self.queries
+        j.update(self.job_extra)
         j.update(kw)
         return j
 
